@@ -4,8 +4,8 @@ from common import *
 import decl, gen, pktcases, pktprops
 
 PID = 'C08'
-TARGETS = ['Properties/C08.vo', 'Bridge/MoveBridge.vo', 'Bridge/CodegenBridge.vo', 'Bridge/RefBridge.vo']
-KERNELS = ['G4_seq', 'G11_codegen', 'G16_ref', 'G16b_optional']
+TARGETS = ['Properties/C08.vo', 'Bridge/MoveBridge.vo', 'Bridge/CodegenBridge.vo', 'Bridge/RefBridge.vo', 'Bridge/PlumbingBridge.vo']
+KERNELS = ['G4_seq', 'G11_codegen', 'G16_ref', 'G16b_optional', 'G17_builder', 'G18_conditions']
 PROP_FILE = 'Properties/C08.v'
 
 
